@@ -36,11 +36,40 @@ let do_sbuf lens =
   let sb = sbuf_buf sb in
   pr "n=%d room=%d sz=%d\n" (int_of_z (sb_n sb)) (if int_of_z (sb_n sb) + 1 <= int_of_z (sb_sz sb) then 1 else 0) (int_of_z (sb_sz sb))
 
+(* sv cmd=<w|w!|wq|wq!|x|x!|xa|xa!|q|q!> rng=<b,e|-> tgt=<own|other> text=<hex> dirty=<0|1> own=<absent|hex> ownm=<n>
+      rec=<n> other=<absent|hex> otherm=<n> sched=<o|e|sK,...|->
+   -> q=<0|1> st=<ok|refused|failed> dirty=<0|1> own=<hex|absent> other=<hex|absent> used=<calls consumed> *)
+let do_sv kvs =
+  let get k = try List.assoc k kvs with Not_found -> "-" in
+  let cmd = get "cmd" in
+  let has c = String.contains cmd c in
+  let file k m = if get k = "absent" then [] else [(bytes_of_hex (get k), z_of_int (int_of_string (get m)))] in
+  let fs = List.map (fun f -> (O, f)) (file "own" "ownm") @ List.map (fun f -> (S O, f)) (file "other" "otherm") in
+  let bf = { b_lines = split_lines (bytes_of_hex (get "text")); b_path = O; b_mtime = z_of_int (int_of_string (get "rec"));
+             b_dirty = (get "dirty" = "1") } in
+  let sch = List.map (fun w -> if w = "o" then OOk else if w = "e" then OErr
+                        else OShort (nat_of_int (int_of_string (String.sub w 1 (String.length w - 1))))) (split_on ',' (get "sched")) in
+  let now = z_of_int 200 in
+  let path = if get "tgt" = "other" then S O else O in
+  let rng = match split_on ',' (get "rng") with [b; e] -> Some (nat_of_int (int_of_string b), nat_of_int (int_of_string e)) | _ -> None in
+  let (q, st, bf', fs', r) =
+    if cmd = "w" || cmd = "w!" then
+      let (((st, bf'), fs'), r) = ec_write now false (has '!') rng path bf fs sch in (false, st, bf', fs', r)
+    else
+      let ((((q, st), bufs'), fs'), r) = ec_quit now (cmd.[0] = 'w' || cmd.[0] = 'x') (cmd.[0] = 'x') (has 'a') (has '!') [bf] fs sch in
+      (q, st, (match bufs' with b :: _ -> b | [] -> bf), fs', r) in
+  let show p = match fs_content fs' p with Some c -> hex_of_bytes c | None -> "absent" in
+  pr "q=%d st=%s dirty=%d own=%s other=%s used=%d\n" (if q then 1 else 0)
+    (match st with SOk -> "ok" | SRefused -> "refused" | SFailed -> "failed")
+    (if bf'.b_dirty then 1 else 0) (show O) (show (S O)) (List.length sch - List.length r)
+
 let () =
   iter_lines (fun l ->
     (match words l with
     | ["rw"; chunks; b; e; old] -> do_rw chunks b e old None
     | ["rw"; chunks; b; e; old; pos; c2] -> do_rw chunks b e old (Some (pos, c2))
     | ["sbuf"; lens] -> do_sbuf lens
+    | "sv" :: kvs -> do_sv (List.map (fun w -> match String.index_opt w '=' with
+        | Some i -> (String.sub w 0 i, String.sub w (i + 1) (String.length w - i - 1)) | None -> (w, "")) kvs)
     | _ -> pr "?\n");
     flush stdout)
